@@ -130,18 +130,35 @@ Qed.
 
 (** ** 4b. the traversals that the call-log correspondence ties to the code (entity.method(...) and
     entity.transform([...])) make exactly the leaf calls of [visits], in the same order; what they add is the
-    unobservable bookkeeping of Operation.invert.  A transformation list applied to a bare Angle is the exception. *)
+    unobservable bookkeeping of Operation.invert.  With fix C09-9 a transformation list is the sequence of method
+    calls on the entity itself, so this holds for every entity, a bare Angle included. *)
 Definition M09_traversal_stmt : Prop :=
   (forall k n, filter observable (method_visits k n) = visits k n) /\
   (forall k n, k <> KMirror -> method_visits k n = visits k n) /\
-  (forall k n, not_angle n -> filter observable (list_visits k n) = visits k n).
+  (forall k n, filter observable (list_visits k n) = visits k n).
 Theorem M09_traversal : M09_traversal_stmt.
 Proof. split; [exact method_visits_observable | split; [exact method_visits_nonmirror | exact list_visits_observable]]. Qed.
 
 Definition M09_list_on_angle_stmt : Prop :=
   forall k i, filter observable (list_visits k (NAngle i)) = visits k (NAngle i).
-Theorem M09_list_on_angle_refuted : ~ M09_list_on_angle_stmt.
-Proof. intro H. specialize (H KTranslate 0%nat). discriminate H. Qed.
+Theorem M09_list_on_angle : M09_list_on_angle_stmt.
+Proof. intros k i. exact (list_visits_observable k (NAngle i)). Qed.
+
+(** a transformation list is the sequence of method calls; an operation transformed through a list is mirrored
+    but not inverted (pinned by the library's tests) *)
+Definition M09_list_is_method_stmt : Prop :=
+  (forall k n, top_oper n = false -> list_visits k n = method_visits k n /\ list_tree k n = method_tree k n) /\
+  (forall k b t s, list_visits k (NOper b t s) = visits k (NOper b t s) /\ list_tree k (NOper b t s) = NOper b t s) /\
+  (forall k n, k <> KMirror -> list_visits k n = method_visits k n /\ list_tree k n = method_tree k n).
+Theorem M09_list_is_method : M09_list_is_method_stmt.
+Proof.
+  split; [exact list_visits_method | split; [exact list_visits_oper |]].
+  intros k n Hk. split.
+  - rewrite list_visits_nonmirror, method_visits_nonmirror by exact Hk. reflexivity.
+  - destruct n, k; try reflexivity; contradiction.
+Qed.
+Example M09_list_is_method_sat : top_oper (NGroup [NOper (NPoint 0) (NPoint 1) [NAngle 2]]) = false /\ KRotate <> KMirror.
+Proof. split; [reflexivity | discriminate]. Qed.
 
 (** ** 5. any number of transformations (in particular lists of up to three) compose *)
 Definition M09_compose_stmt : Prop :=
